@@ -22,7 +22,7 @@ ASSUMPTIONS = [
     "CORS is not given all-zero losses (its normalisation divides by max|loss|)",
 ]
 REQUIRED_COUNTERS = {f"batches_{k}": 20 for k in G.SAMPLER_KINDS}
-REQUIRED_COUNTERS.update({"spaces_with_integer_typed_bounds": 30, "swarm_restarts_on_empty_history": 3, "cors_runs_beyond_max_samples": 1, "spaces_with_equal_length_axes": 20, "spaces_with_a_million_point_axis": 5, "bestbatch_history_shorter_than_batch": 3, "nonaligned_spaces": 50, "multi_call_objects": 50, "second_space_calls": 60})
+REQUIRED_COUNTERS.update({"spaces_with_integer_typed_bounds": 30, "swarm_restarts_on_empty_history": 3, "cors_runs_beyond_max_samples": 1, "spaces_with_equal_length_axes": 20, "spaces_with_a_million_point_axis": 5, "bestbatch_history_shorter_than_batch": 3, "nonaligned_spaces": 50, "multi_call_objects": 50, "second_space_calls": 60, "second_space_of_another_dimension": 40})
 SHARDS = {"quick": 16, "thorough": 16}
 SHARD_WATCHDOG = {"quick": 1500, "thorough": 10800}
 
@@ -138,7 +138,12 @@ def run_case(desc, ctx):
         # the same sampler object is then used on ANOTHER space of the same dimension (a second calibration re-using the
         # user's sampler objects): every batch must lie on the grid of the space it is asked for
         if done and rep % 2 == 0 and not out["violations"]:
-            sd2 = G.gen_space(rng, dims=space.dims)
+            dims2 = space.dims
+            if rng.random() < 0.5 and kind != "ParticleSwarm":     # (a swarm keeps positions of its first space: another dimension is a new swarm)
+                # ... or of another dimension: fewer parameters (down to one) or more
+                dims2 = int(rng.choice([d_ for d_ in (1, 1, 2, 3, space.dims + 1, space.dims + 3) if d_ != space.dims]))
+                c["second_space_of_another_dimension"] = c.get("second_space_of_another_dimension", 0) + 1
+            sd2 = G.gen_space(rng, dims=dims2)
             space2 = G.build_space(sd2)
             pts2, losses2, lk2 = G.gen_history(rng, space2, int(rng.integers(max(bs, 2), 20)), "random")
             try:
@@ -153,7 +158,11 @@ def run_case(desc, ctx):
                                               "witness": dict(wit, second_space=sd2, batch=b2)})
             except G.Timeout:
                 pass
-            except Exception:  # noqa: BLE001
+            except Exception as e:  # noqa: BLE001
+                if kind in G.HISTORY_FREE:
+                    # a sampler that never looks at the history has no reason to refuse a space
+                    out["violations"].append({"msg": f"{kind}: after being used on a space of {space.dims} parameter(s) the same object refuses a space of {dims2}: "
+                                                     f"{type(e).__name__}: {str(e)[:140]}", "witness": dict(wit, second_space=sd2)})
                 c[f"rejected_{kind}"] = c.get(f"rejected_{kind}", 0) + 1
         if nonal and done:
             out["nontrivial"].append(jhash([smp, sd, nh, lk]))
